@@ -161,64 +161,217 @@ def _agg_roles(fn):
     return names, at
 
 
+NANP = Poly.atom(('sym', 'NAN'))
+
+
+def _is_nan_poly(v):
+    return v is not None and v == NANP
+
+
+def _const_of(v):
+    """the rational value of a constant polynomial, else None"""
+    if v is None:
+        return None
+    for c in (0, 1, -1, 2, 3):
+        if v == Poly.const(c):
+            return c
+    try:
+        return v.const_value() if v.is_const() else None
+    except AttributeError:
+        return None
+
+
+def _nrm(e, env):
+    from acc import is_null_literal
+    if is_null_literal(e):
+        return NANP
+    return norm(e, env)
+
+
+def _atom(c, env, want):
+    """alternatives (env', [description]) under which the atomic condition c is `want`; the
+    conditions understood are null tests of a tracked local and its comparison with 0"""
+    c = peel(c)
+
+    def tracked(y):
+        y = peel(y)
+        return y.get('local') if y.get('k') == 'Path' and y.get('res') == 'local' else None
+
+    def lit0(y):
+        y = peel(y)
+        return y.get('k') == 'Lit' and norm(y, Env()) == Poly.const(0)
+    if c.get('k') == 'MethodCall' and c.get('method') in ('not_none', 'is_none', 'is_nan') and len(c['ch']) == 1:
+        x = tracked(c['ch'][0])
+        if x is not None:
+            truth_is_none = (c['method'] != 'not_none') == want
+            v = env.vals.get(x)
+            if _is_nan_poly(v):
+                if truth_is_none:
+                    yield env, []
+                return
+            if v is not None and _const_of(v) is not None:
+                if not truth_is_none:
+                    yield env, []
+                return
+            e2 = Env(env)
+            if truth_is_none:
+                e2.vals[x] = NANP
+            yield e2, ['%s%s' % ('' if want else '!', src(c))]
+            return
+    if c.get('k') == 'Binary' and c.get('op') in ('Ne', 'Eq'):
+        for a, b in ((c['ch'][0], c['ch'][1]), (c['ch'][1], c['ch'][0])):
+            x = tracked(a)
+            if x is not None and lit0(b):
+                want_zero = (c['op'] == 'Eq') == want
+                v = env.vals.get(x)
+                if _is_nan_poly(v):
+                    if not want_zero:
+                        yield env, []
+                    return
+                if v is not None and _const_of(v) is not None:
+                    if (_const_of(v) == 0) == want_zero:
+                        yield env, []
+                    return
+                e2 = Env(env)
+                if want_zero:
+                    e2.vals[x] = Poly.const(0)
+                yield e2, ['%s%s' % ('' if want else '!', src(c))]
+                return
+    yield env, ['%s(%s)' % ('' if want else '!', src(c))]
+
+
+def _cases(c, env, want):
+    c = peel(c)
+    if c.get('k') == 'Unary' and c.get('op') == 'Not':
+        yield from _cases(c['ch'][0], env, not want)
+        return
+    if c.get('k') == 'Binary' and c.get('op') in ('And', 'BitAnd', 'Or', 'BitOr') and \
+            (c.get('ty') or 'bool') == 'bool':
+        a, b = c['ch']
+        conj = c['op'] in ('And', 'BitAnd')
+        if conj == want:        # both sides as wanted
+            for e1, d1 in _cases(a, env, want):
+                for e2, d2 in _cases(b, e1, want):
+                    yield e2, d1 + d2
+        else:                   # first side decides, or the first is the other way and the second decides
+            for e1, d1 in _cases(a, env, want):
+                yield e1, d1
+            for e1, d1 in _cases(a, env, not want):
+                for e2, d2 in _cases(b, e1, want):
+                    yield e2, d1 + d2
+        return
+    yield from _atom(c, env, want)
+
+
+def _run_expr(e, env, conds):
+    """paths through an expression: (conds, env, value | None, returned)"""
+    e = peel(e)
+    k = e.get('k')
+    if k == 'If' and peel(e['ch'][0]).get('k') != 'LetExpr':
+        for want in (True, False):
+            target = e['ch'][1] if want else (e['ch'][2] if len(e['ch']) > 2 else None)
+            for env_b, d in _cases(e['ch'][0], env, want):
+                if target is None:
+                    yield conds + d, env_b, None, False
+                else:
+                    yield from _run_expr(target, env_b, conds + d)
+        return
+    if k == 'Block':
+        yield from _run_stmts(e.get('stmts', []), e.get('expr'), Env(env), conds)
+        return
+    if k == 'Ret':
+        yield conds, env, (_nrm(e['ch'][0], env) if e.get('ch') else None), True
+        return
+    if k in ('Assign', 'AssignOp'):
+        e2 = Env(env)
+        read_block({'stmts': [{'k': 'Semi', 'e': e}]}, e2)
+        yield conds, e2, None, False
+        return
+    yield conds, env, _nrm(e, env), False
+
+
+def _run_stmts(stmts, tail, env, conds):
+    if not stmts:
+        if tail is None:
+            yield conds, env, None, False
+        else:
+            yield from _run_expr(tail, env, conds)
+        return
+    st, rest = stmts[0], stmts[1:]
+    if st['k'] == 'Let' and 'init' in st and st['pat'].get('k') == 'Binding' and \
+            peel(st['init']).get('k') in ('If', 'Block'):
+        for c2, e2, v, ret in _run_expr(st['init'], env, conds):
+            if ret:
+                yield c2, e2, v, True
+                continue
+            e3 = Env(e2)
+            if v is not None:
+                e3.vals[st['pat']['local']] = v
+                e3.killed.discard(st['pat']['local'])
+            yield from _run_stmts(rest, tail, e3, c2)
+        return
+    x = peel(st.get('e', {})) if st['k'] in ('Semi', 'Expr') else None
+    if x is not None and x.get('k') in ('If', 'Ret', 'Block'):
+        for c2, e2, v, ret in _run_expr(x, env, conds):
+            if ret:
+                yield c2, e2, v, True
+                continue
+            yield from _run_stmts(rest, tail, e2, c2)
+        return
+    e2 = Env(env)
+    read_block({'stmts': [st]}, e2)
+    yield from _run_stmts(rest, tail, e2, conds)
+
+
+def value_paths(fn, names):
+    """every path through the body of a straight-line-with-branches function: (conditions, value
+    as a polynomial over the role-named variables).  Null tests and comparisons with 0 of a
+    variable whose value is known on the path are decided, the others fork and refine."""
+    env = Env()
+    for lid, nm in names.items():
+        env.name(lid, nm)
+    out = []
+    for conds, e2, v, ret in _run_stmts(fn.hir.get('stmts', []), fn.hir.get('expr'), env, []):
+        out.append((conds, v))
+    return out
+
+
 def check_aggs(run, F):
     """vskew / vkurt one-pass formulas (raw power sums normalised in place, then adjusted).
-    Variables are found by role: the power sums by what the pass adds to them, the result by
-    being the function's value."""
+    Variables are found by role (the power sums by what the pass adds to them); the function body
+    is evaluated path by path, so early returns, negated tests, nested or merged conditions and
+    renamed or re-bound intermediates are all the same thing."""
     jobs, meta = [], {}
     for name in ('AggValidBasic::vskew', 'AggValidExt::vkurt'):
         fn = F.one(name)
-        body = fn.hir
-        stmts = body.get('stmts', [])
         names, at = _agg_roles(fn)
-        tail = peel(body.get('expr', {}))
-        res_local = tail.get('local') if tail.get('k') == 'Path' and tail.get('res') == 'local' else None
-        idx = [i for i, st in enumerate(stmts) if st['k'] == 'Let' and st['pat'].get('k') == 'Binding'
-               and st['pat'].get('local') == res_local and 'init' in st]
-        ok_shape = len(idx) == 1 and at is not None and at < idx[0]
-        final = None
-        where = fn.hir
-        if ok_shape:
-            st = stmts[idx[0]]
-            env = Env()
-            for lid, nm in names.items():
-                env.name(lid, nm)
-            read_block({'stmts': stmts[:idx[0]]}, env)
-            iff = peel(st['init'])
-            main = peel(iff['ch'][1]) if iff.get('k') == 'If' else None
-            inner = [y for y in (peel(main.get('expr', {})),) if y.get('k') == 'If'] if main else []
-            if main is None or not inner:
-                ok_shape = False
-            else:
-                read_block({'stmts': main.get('stmts', [])}, env)
-                branch = peel(inner[0]['ch'][2])
-                read_block({'stmts': branch.get('stmts', [])}, env)
-                value = norm(branch['expr'], env)
-                env.vals[res_local] = value
-                env.killed.discard(res_local)
-                # the adjustment `if res.not_none() && res != 0. { … }`
-                adj = [peel(x.get('e', {})) for x in stmts[idx[0] + 1:] if x['k'] in ('Expr', 'Semi')]
-                adj = [a for a in adj if a.get('k') == 'If' and
-                       any(y.get('k') == 'Path' and y.get('local') == res_local for y in walk(a['ch'][0]))]
-                if len(adj) != 1:
-                    ok_shape = False
-                else:
-                    where = adj[0]
-                    blk = peel(adj[0]['ch'][1])
-                    if blk.get('k') in ('Assign', 'AssignOp'):
-                        blk = {'k': 'Block', 'stmts': [{'k': 'Semi', 'e': blk}]}
-                    read_block(blk, env)
-                    if blk.get('expr', {}).get('k') in ('Assign', 'AssignOp'):
-                        read_block({'stmts': [{'k': 'Semi', 'e': blk['expr']}]}, env)
-                    final = env.vals.get(res_local)
-        if not ok_shape or final is None:
-            run.ob('CAS.form', fn, '%s closed form' % fn.name, False, fn.loc(), 'shape not recognised')
+        try:
+            paths = value_paths(fn, names) if at is not None else []
+        except (KeyError, IndexError, TypeError) as ex:
+            paths = []
+        vals = [(cs, v) for cs, v in paths if v is not None]
+        main = [(cs, v) for cs, v in vals if not _is_nan_poly(v) and _const_of(v) is None]
+        consts = sorted({str(_const_of(v)) for cs, v in vals if _const_of(v) is not None})
+        if not vals or len(vals) != len(paths) or not main:
+            run.ob('CAS.form', fn, '%s closed form' % fn.name, False, fn.loc(),
+                   'shape not recognised: %d path(s), %d with a value, %d with a formula'
+                   % (len(paths), len(vals), len(main)))
             continue
+        # the degenerate branch yields 0 and stays 0: besides the formula and NaN the only value is 0
+        run.ob('CAS.floor', fn, '%s degenerate branch' % fn.name, consts == ['0'], fn.loc(),
+               'constant results %s over %d path(s); a floor value pushed through the adjustment would '
+               'show up as a second formula' % (consts, len(vals)))
         ref = cas.ref_skew(s1='S_m1', s2='S_m2', s3='S_m3') if 'skew' in name else \
             cas.ref_kurt(s1='S_m1', s2='S_m2', s3='S_m3', s4='S_m4')
-        jid = fn.qpath
-        jobs.append({'id': jid, 'poly': final, 'ref': ref})
-        meta[jid] = (fn, '%s closed form' % fn.name, where)
+        seen = []
+        for cs, v in main:
+            if any(v == w for w in seen):
+                continue
+            seen.append(v)
+            jid = '%s#%d' % (fn.qpath, len(seen))
+            jobs.append({'id': jid, 'poly': v, 'ref': ref})
+            meta[jid] = (fn, '%s closed form%s' % (fn.name, '' if len(seen) == 1 else ' (path variant %d: %s)'
+                                                  % (len(seen), ' && '.join(cs)[:80])), fn.hir)
     res = cas.compare(jobs)
     for jid, (fn, key, e) in meta.items():
         eq, det = res.get(jid, (None, 'no result'))
